@@ -145,11 +145,20 @@ CHECKS = {
               "re-summation in Coq. get_operation_count (with is_merge_layers / is_shape_alternation_layers) is REGENERATED on every run "
               "(tools/translate/opcountgen.py -> coq/gen/OpCountGen.v); Link/OpCountLink.v re-proves for every class of every dispatch arm and all "
               "dimensions that it is the model formula, so the loop-nest theorems are stated about the code as it is now (C19_code_*); the "
-              "generated function is also evaluated in Coq on every sampled layer and compared with the implementation's count."),
-        design_ref="DESIGN.md section 5 C19, section 10",
+              "generated function is also evaluated in Coq on every sampled layer and compared with the implementation's count. "
+              "The operation-energy dispatch of energy_estimate (tools/translate/energygen.py -> coq/gen/EnergyGen.v: the class arms, the expression each leaves "
+              "in energy_op over the operators of the layer item, the keys of the per-layer dictionary and the terms the total adds) and the two memory "
+              "functions (tools/translate/memgen.py -> coq/gen/MemGen.v: the input / output override, which costs each placement pays, what rd_wr_on_io adds) "
+              "are regenerated on every run as well; Link/EnergyLink.v and Link/MemLink.v prove them equal to op_cost / mem_read / mem_write of QTools/Energy.v for "
+              "every class name, count, number of inputs, placement and unit cost, and C19_code_* state non-negativity, the n - 1 operations of an n-input merge layer, "
+              "the MAC / pooling formulas, linearity in the count, that the total adds exactly the four printed entries, that a placement other than DRAM / SRAM costs "
+              "nothing and that the placement option is irrelevant at the model's inputs and outputs -- about the code as it is now. Every op_cost and every memory "
+              "entry of every layer class (merge layers with n inputs of rank r varied independently, pooling, batch normalisation, branched real models) is judged by "
+              "evaluating the Coq model on the unit costs the implementation's own tables give."),
+        design_ref="DESIGN.md section 5 C19, section 10, section 10.10",
         note=(TB_COMMON + "Energy polynomials and log2 are float64 functions of qenergy; entries are compared with an independent float64 "
               "recomputation (a test), sums exactly. QTools(model) runs under the four accessor shims described for C18."),
-        technique="Coq proof (loop-nest cardinality, QArith sums) + differential correspondence on real layers"),
+        technique="Coq proof (loop-nest cardinality, QArith sums, energy dispatch and placement model) over models regenerated from source by three translators + differential correspondence on real layers and the real QTools pipeline"),
     "C09": dict(
         category="proof",
         text=("Coq theorems (Properties/C09.v): for every class description (parameters with defaults, emitted keys) and ALL option values, "
@@ -218,8 +227,10 @@ CHECKS = {
               "transferred weights (including batch-norm moving statistics and frozen layers), and non-modification of the source model and of the caller's dictionary "
               "are checked on the real objects. The Activation branch is modelled in full (Convert/Adaptive.v): QActivation and QAdaptiveActivation entries, the "
               "prefer_qadaptiveactivation switch, parameter stripping and total_bits of an adaptive entry, proved to be a conservative extension of the base function; "
-              "directed models contain every weighted layer kind with and without a bias."),
-        design_ref="DESIGN.md section 5 C12, section 10",
+              "directed models contain every weighted layer kind with and without a bias. The ReLU-layer branch is modelled too (Convert/Relu.v, a conservative "
+              "extension again): a Keras ReLU layer is looked up under its name, then under QActivation; a plain string converts it, a per-activation map converts it only "
+              "through the key its slope selects (relu / leakyrelu), QAdaptiveActivation entries never touch it; plain, leaky and capped ReLU layers are generated in rotation."),
+        design_ref="DESIGN.md section 5 C12, section 10, section 10.10",
         note=(TB_COMMON + "Keras model (re)construction is runtime behaviour outside the model. Recurrent, Bidirectional, BatchNormalization and "
               "folded layers are not generated (they do not build under the pinned Keras 3); SeparableConv and LeakyReLU conversions are "
               "known findings."),
